@@ -130,3 +130,66 @@ func c18CountOutPerRelation(p *load.Program, r *core.Report) {
 		})
 	}
 }
+
+// c18RemoteOwnersTold: V4r — the owner's node of a REMOTE event counts its subscribers too (V2/V4
+// run there), and while the connection stays nothing tells it that a subscriber process has
+// terminated: the process release function hands both lists of CleanupConsumer to code that sends
+// the owner's node an UnlinkEvent and a DemonitorEvent request for the remote events among them.
+func c18RemoteOwnersTold(a *Anchors, r *core.Report) {
+	rule := "C18.V4r remote-owner-told-about-a-terminated-subscriber"
+	r.Floor(rule, 1)
+	p := a.P
+	f := p.Func("node", a.NodeT.Obj().Name(), "unregisterProcess")
+	key := "C18.V4r|unregisterProcess"
+	inst := "the nodes of the remote events a terminating process was subscribed to are sent UnlinkEvent / DemonitorEvent for it"
+	if f == nil {
+		r.Unk(rule, key, "", "", inst, "unregisterProcess not found")
+		return
+	}
+	var cleanup *ssa.Call
+	eachInstr(f, func(in ssa.Instruction) {
+		if c, ok := in.(*ssa.Call); ok && callsNamed(in, "CleanupConsumer") {
+			cleanup = c
+		}
+	})
+	if cleanup == nil {
+		r.Unk(rule, key, fname(f), p.Pos(f.Pos()), inst, "CleanupConsumer is not called")
+		return
+	}
+	links, mons := tupleExtract(cleanup, 0), tupleExtract(cleanup, 1)
+	sends := func(g *ssa.Function, method string) bool {
+		hit := false
+		for _, h := range family(g) {
+			eachInstr(h, func(in ssa.Instruction) {
+				if cc := callCommon(in); cc != nil && cc.IsInvoke() && cc.Method.Name() == method {
+					hit = true
+				}
+			})
+		}
+		return hit
+	}
+	okL, okM := false, false
+	eachInstr(f, func(in ssa.Instruction) {
+		cc := callCommon(in)
+		if cc == nil {
+			return
+		}
+		g := staticCallee(cc)
+		if g == nil || len(g.Blocks) == 0 {
+			return
+		}
+		for _, arg := range cc.Args {
+			if links != nil && arg == links && sends(g, "UnlinkEvent") {
+				okL = true
+			}
+			if mons != nil && arg == mons && sends(g, "DemonitorEvent") {
+				okM = true
+			}
+		}
+	})
+	if okL && okM {
+		r.OK(rule, key, fname(f), p.Pos(cleanup.Pos()), inst, "the link list reaches code that invokes Connection.UnlinkEvent, the monitor list code that invokes Connection.DemonitorEvent")
+	} else {
+		r.Bad(rule, key, fname(f), p.Pos(cleanup.Pos()), inst, fmt.Sprintf("link list -> UnlinkEvent: %v, monitor list -> DemonitorEvent: %v — the owner's node keeps counting a subscriber that no longer exists: its producer never gets MessageEventStop while the connection stays", okL, okM))
+	}
+}
